@@ -1,4 +1,10 @@
 import FitProps.DecoderApiLemmas
+import FitProps.DecoderApiEntryLemmas
+import FitModel.DecoderApiListener
+import FitProps.C08
+import FitProps.C13
+import FitProps.C14
+import FitProps.C16
 /-!
 # C03 — Decoding arbitrary bytes never panics, hangs or fakes success
 
@@ -7,7 +13,7 @@ that the driver runs against the real code (families `decapi`, `dechist`). They 
 option combination, every factory table and every sequence of API calls.
 
 PROPERTY THEOREMS (audited by ./check): C03_no_panic, C03_no_hang, C03_sticky, C03_error_sticks, C03_sticky_run,
-C03_no_fake_success, C03_no_fake_success_clean, C03_consts
+C03_no_fake_success, C03_no_fake_success_clean, C03_ctx_cancel, C03_ctx_no_fake_success, C03_raw_total, C03_readbuffer_total, C03_listener_total, C03_consts
 -/
 namespace Fit.C03
 open Fit.DecApi
@@ -98,6 +104,64 @@ theorem C03_no_fake_success_clean (s : St) (hq : s.q = {}) (hl : s.look = {}) (h
   rw [eq_fresh_of_clean s hq hl] at h
   exact C03_no_fake_success s.o s.rest hb hf hlen s' f evs h
 
+def isFitOut : Out → Bool
+  | .fit _ => true
+  | _ => false
+
+/-- **A context cancelled while `DecodeWithContext` runs** (by a listener, by another goroutine — `k` = the number of
+records the call decodes before a check of the context first sees it, any `k`): the call either is `Decode` itself
+— same state afterwards, same result, same listener calls: the cancellation came too late to be seen — or it returns
+the context's error, which is then the decoder's sticky `d.err` (so by `C03_sticky_run` every later call returns it
+until `Reset`: no later `Decode` can present the rest of the stream, or an empty FIT, as a success). -/
+theorem C03_ctx_cancel (k : Nat) (s : St) (hi : Inv s) :
+    stepDecodeCtxAt k s = stepDecode s ∨
+      ((stepDecodeCtxAt k s).2.1 = .err .ctx ∧ (stepDecodeCtxAt k s).1.q.err = some .ctx) := by
+  have hg := stepDecodeCtxAt_good k s hi
+  unfold stepDecodeCtxAt stepDecode at *
+  cases he : s.q.err with
+  | some e => left; rfl
+  | none =>
+    rw [he] at hg
+    simp only at hg ⊢
+    unfold decodeBodyAt decodeBody at *
+    cases hr : headerOnce s with
+    | ok s1 =>
+      rw [hr] at hg
+      simp only at hg ⊢
+      rcases decodeMessagesCtx_cases (fuelOf s1) k s1 with hc | hc
+      · left; rw [hc]; rfl
+      · right
+        have : (decodeTail (decodeMessagesCtx (fuelOf s1) k s1)).2.1 = .err .ctx := by
+          rcases hd : decodeMessagesCtx (fuelOf s1) k s1 with ⟨s2, evs2, r⟩
+          rw [hd] at hc
+          simp only at hc
+          subst hc
+          rfl
+        exact ⟨this, hg.2.2.2 _ this⟩
+    | err e => left; rfl
+    | panic => left; rfl
+    | hang => left; rfl
+
+/-- **No fake success of `DecodeWithContext`**, whenever its context is cancelled: a FIT it returns on a new decoder
+is the FIT `Decode` returns, with everything `C03_no_fake_success` says about it. -/
+theorem C03_ctx_no_fake_success (k : Nat) (o : Opts) (bytes : List Nat) (hb : IsBytes bytes) (hf : FacOK o.fac)
+    (hlen : bytes.length < 4294967296) (s' : St) (f : Fit) (evs : List Event)
+    (h : stepDecodeCtxAt k (St.fresh o bytes) = (s', .fit f, evs)) :
+    stepDecode (St.fresh o bytes) = (s', .fit f, evs) ∧
+    ∃ hdr recs c0 c1, bytes = hdr ++ recs ++ [c0, c1] ++ s'.rest ∧ HdrOK o.chk 0 hdr f.hdr ∧
+      f.hdr.dataSize ≤ recs.length ∧ f.crc = c0 + 256 * c1 ∧ (o.chk = true → Fit.Crc.write 0 recs = f.crc) :=
+  ⟨stepDecodeCtxAt_fit k _ s' f evs h,
+   C03_no_fake_success o bytes hb hf hlen s' f evs (stepDecodeCtxAt_fit k _ s' f evs h)⟩
+
+/-- Non-vacuity, and the scenario of the cancellation that arrives with the LAST message (`P` is one definition and one
+data record; the listener of the data record cancels the context; the check after the loop sees it): the call fails with the context error, and the
+`Decode` that follows returns that error — not a FIT with no messages. A cancellation that would come after a third
+record is never seen: the call is `Decode`. -/
+example : let P := [14, 32, 154, 82, 11, 0, 0, 0, 46, 70, 73, 84, 30, 8, 64, 0, 0, 0, 0, 1, 0, 1, 0, 0, 4, 84, 47]
+    (run (Api.fresh {} P) [.decodeCtxAt 2, .decode]).map (·.1) = [.err .ctx, .err .ctx] ∧
+    isFitOut (stepDecodeCtxAt 3 (St.fresh {} P)).2.1 = true ∧
+    stepDecodeCtxAt 3 (St.fresh {} P) = stepDecode (St.fresh {} P) := by decide +kernel
+
 /-- Non-vacuity: a one-record sequence is accepted (`P` of C07), its corrupted copy is not, and a decoder that met a
 truncated header is dead and stays so. -/
 def isFit : Out → Bool
@@ -111,6 +175,102 @@ example : isFit (stepDecode (St.fresh {} [14, 32, 154, 82, 11, 0, 0, 0, 46, 70, 
 example : let a := (step (Api.fresh {} [14, 32]) .decode).1
     a.d.q.err = some .eof ∧ (run a [.decode, .next, .peekFileId, .checkIntegrity]).map (·.1) =
       [.err .eof, .bool false, .err .eof, .integrity 0 (some .eof)] := by decide
+
+/-! ## the other entry points the statement names: raw decoding, the read buffer under any reader, the typed-file listener
+
+Corollaries of the theorems of C16 (raw decoder model, `FitModel/Raw.lean`), C08 (read buffer and the decoder as a client
+of it, `FitModel/ReadBuffer.lean` / `DecProg.lean`), C13 (typed conversion, `FitModel/Typed.lean`) and C14 (listener
+transition system, `FitModel/Listener.lean`), whose models are tied to the code by those properties' families and, for
+the no-panic / no-hang claim on hostile input, by the family `decentry` of this check. -/
+
+/-- **Raw decoding is total.** For every byte stream, every behaviour of the callback (`failAt`: it never fails, or it
+fails at its j-th call) and every bound `fuel` on the number of sequences: `RawDecoder.Decode` ends with a result or an
+error and never in its one panic branch (`BytesArray[1:lenMesg]` beyond the fixed array: a record length computed from
+255 + 255 sizes of at most 255 always fits) — over the exact-n reader and over ANY reader (`io.ReadFull` on a reader that
+fragments the stream anyhow and fails anywhere); and the bound is not what stops it: with more fuel than bytes the
+outcome does not depend on the fuel (every sequence consumes at least one byte). Termination itself is Lean's: the model
+is a finite tree of read requests (`Prog`) interpreted by structural recursion. -/
+theorem C03_raw_total (failAt : Option Nat) (fuel : Nat) (bs : Fit.ReadBuffer.Bytes) (hb : Fit.ReadBuffer.IsBytes bs) :
+    (Fit.C16.rawOut failAt fuel bs).status ≠ some .panic ∧
+    (∀ s : Fit.ReadBuffer.Sched, Fit.ReadBuffer.bytesOf s = bs →
+      (Fit.ReadBuffer.runFull (Fit.Raw.decode failAt fuel {}) s).status ≠ some .panic) ∧
+    (bs.length < fuel → Fit.C16.rawOut failAt fuel bs = Fit.C16.rawOut failAt (bs.length + 1) bs) :=
+  ⟨Fit.Raw.nopanic_exact _ (Fit.Raw.nopanic_decode failAt fuel {}) bs hb,
+   fun s hs => Fit.Raw.nopanic_full _ (Fit.Raw.nopanic_decode failAt fuel {}) s (hs ▸ hb),
+   fun hf => Fit.Raw.decode_simN failAt bs.length fuel (bs.length + 1) {} hf (Nat.lt_succ_self _) bs (Nat.le_refl _)⟩
+
+/-- non-vacuity: a stream that ends before the declared data size is reached, with a callback failing at its third call and without -/
+example : (Fit.C16.rawOut (some 2) 9 [14, 32, 0, 0, 16, 0, 0, 0, 46, 70, 73, 84, 0, 0, 0x42, 0, 0, 20, 0, 2, 3, 1, 2, 4, 0, 2, 0xC5, 9]).status = some .callback ∧
+    (Fit.C16.rawOut none 9 [14, 32, 0, 0, 16, 0, 0, 0, 46, 70, 73, 84, 0, 0, 0x42, 0, 0, 20, 0, 2, 3, 1, 2, 4, 0, 2, 0xC5, 9]).status = some (.io .eof) := by
+  decide +kernel
+
+/-- **The read buffer is total under the decoder.** (1) `ReadN`, on a buffer in whatever state `Reset` found it, over ANY
+reader (any fragmentation, failures anywhere) and any buffer size, never panics for requests of at most `reservedbuf`
+bytes; (2) every request the decoder issues — file header, record headers, definitions with up to 255 + 255 field
+definitions, field and developer field values, CRC — is at most `reservedbuf` bytes; (3) hence the whole
+`for dec.Next() { dec.Decode() }` loop over the read buffer never panics, whatever the reader does. -/
+theorem C03_readbuffer_total :
+    (∀ (b : Fit.ReadBuffer.RB) (s : Fit.ReadBuffer.Sched) (size : Int) (ns : List Nat), (∀ n ∈ ns, n ≤ Fit.Gen.Reader.reservedbuf) →
+      ∀ r ∈ ((b.reset s size).readMany ns).1, r ≠ .panic) ∧
+    (∀ (chk : Bool) (fuel : Nat) (first : Bool) (evs : List Fit.DecProg.Ev),
+      Fit.ReadBuffer.Good Fit.DecProg.Out.merge Fit.Gen.Reader.reservedbuf (Fit.DecProg.decodeLoop chk fuel first evs)) ∧
+    (∀ (chk : Bool) (fuel : Nat) (b : Fit.ReadBuffer.RB) (s : Fit.ReadBuffer.Sched) (size : Int),
+      Fit.ReadBuffer.IsBytes (Fit.ReadBuffer.bytesOf s) →
+      Fit.ReadBuffer.runRB (Fit.DecProg.decodeLoop chk fuel true []) (b.reset s size) ≠ .panic) := by
+  refine ⟨?_, Fit.C08.C08_request_bound, ?_⟩
+  · intro b s size ns hns r hr
+    obtain ⟨i, hi, rfl⟩ := List.mem_iff_getElem.mp hr
+    exact (Fit.C08.C08_readN_sound b s size ns hns i _ (List.getElem?_eq_getElem hi)).1
+  · intro chk fuel b s size hb
+    exact Fit.DecProg.runRB_no_panic _ (Fit.C08.C08_request_bound chk fuel true []) (Fit.DecProg.keeps_decodeLoop chk fuel true [])
+      _ _ (Fit.ReadBuffer.reset_inv b s size) hb
+
+/-- **Feeding a decoded stream to the typed-file listener is total.** For every byte stream, option set, factory table
+and history of API calls, let `msgs` be the messages the decoder hands to its message listeners (as `proto.Message`s:
+`Msg.toMessage`). Then (1) every field of every one of them carries a `FieldBase` — the hypothesis of the typed layer,
+met because the decoder takes every field from `Factory.CreateField` (see `FitModel/DecoderApiListener.lean`);
+(2) so no typed conversion `mesgdef.NewXxx(&mesg)` — what every file type's `Add` calls — panics on any of them, for each
+of the 119 regenerated message tables, whatever field numbers, value types, duplicates and sizes the stream made the
+decoder produce (C13); (3) and `filedef.Listener` fed with them — followed by whatever further calls (`File`, `Close`,
+`Reset`, more messages), for every channel-buffer size N ≥ 0 and every interleaving of the decoder's goroutine with the
+listener's worker — never deadlocks: while the decoder still has a call to finish, some thread can move (C14); (4) and cannot run
+forever: no infinite sequence of steps exists (`Listener.no_infinite_run`: the calls left, then the rank of the two program
+counters plus three times the queue length, decrease lexicographically with every step) — so every run ends, and
+(5) where it ends the decoder's goroutine has finished all its calls: `OnMesg` / `File` / `Close` returned. -/
+theorem C03_listener_total (o : Opts) (bytes : List Nat) (ops : List Op) :
+    let msgs := (listened (run (Api.fresh o bytes) ops)).map Msg.toMessage
+    (∀ m ∈ msgs, ∀ f ∈ m.fields, f.base ≠ none) ∧
+    (∀ m ∈ msgs, ∀ T ∈ Fit.Gen.Mesgdef.tables, Fit.Typed.ofMesg T m ≠ .panic) ∧
+    (∀ (σ : Type) (proc : σ → Fit.Msg.Message → σ) (init : σ) (N : Nat) (calls : List (Fit.Listener.Cmd Fit.Msg.Message))
+       (s : Fit.Listener.St Fit.Msg.Message σ),
+       Fit.Listener.Reachable proc init N (msgs.map .onMesg ++ calls) s → Fit.Listener.isFin s.p = false →
+       ∃ s', Fit.Listener.Step proc init s s') ∧
+    (∀ (σ : Type) (proc : σ → Fit.Msg.Message → σ) (init : σ) (f : Nat → Fit.Listener.St Fit.Msg.Message σ),
+       ¬ ∀ i, Fit.Listener.Step proc init (f i) (f (i + 1))) ∧
+    (∀ (σ : Type) (proc : σ → Fit.Msg.Message → σ) (init : σ) (N : Nat) (calls : List (Fit.Listener.Cmd Fit.Msg.Message))
+       (s : Fit.Listener.St Fit.Msg.Message σ),
+       Fit.Listener.Reachable proc init N (msgs.map .onMesg ++ calls) s → (∀ s', ¬ Fit.Listener.Step proc init s s') →
+       Fit.Listener.isFin s.p = true) := by
+  intro msgs
+  have h1 : ∀ m ∈ msgs, ∀ f ∈ m.fields, f.base ≠ none := by
+    intro m hm f hf
+    obtain ⟨m0, _, rfl⟩ := List.mem_map.mp hm
+    obtain ⟨f0, _, rfl⟩ := List.mem_map.mp hf
+    simp [DField.toField]
+  exact ⟨h1, fun m hm T hT => Fit.C13.C13_no_panic T (Fit.C13.C13_tables_wf T hT) m (h1 m hm),
+    fun σ proc init N calls s hr hfin => Fit.C14.C14_listener_deadlock_free proc init hr hfin,
+    fun σ proc init f => Fit.Listener.no_infinite_run proc init f,
+    fun σ proc init N calls s hr hstuck => by
+      cases hfin : Fit.Listener.isFin s.p with
+      | true => rfl
+      | false =>
+        obtain ⟨s', hs'⟩ := Fit.C14.C14_listener_deadlock_free proc init hr hfin
+        exact absurd hs' (hstuck s')⟩
+
+/-- non-vacuity: the one-record file `P` decoded with a message listener hands out one message (a file_id with an unknown
+field of number 0 — the line's factory is empty) -/
+example : ((listened (run (Api.fresh { ml := true } [14, 32, 154, 82, 11, 0, 0, 0, 46, 70, 73, 84, 30, 8, 64, 0, 0, 0, 0, 1, 0, 1, 0, 0, 4, 84, 47])
+    [.decode])).map Msg.toMessage).length = 1 := by decide +kernel
 
 /-- the constants the guards rely on, as regenerated from the working tree: the largest request (255 field definitions
 of 3 bytes) fits the reserved section of the read buffer, the local-number mask indexes the 16 definition slots, the
